@@ -292,3 +292,43 @@ def whole_list(ctx, rule, b, construct, must_bbs, what):
     if h is None:
         return ctx.missing(rule, construct, "loop head not found (%s)" % what)
     return loop_only_ends_when_exhausted(ctx, rule, b, construct, h, what)
+
+
+def phi_alternatives(b, term, limit=16):
+    """A local assigned on several branches (`let x = if c { a } else { b };`, or the result slot of an inlined helper
+    with several returns) is opaque ('var') in a definition-based term.  Expand it: [(term', extra_conditions)] with one
+    alternative per definition, each carrying the branch conditions that dominate that definition.  Terms without such
+    locals come back unchanged with no extra conditions."""
+    from ..mir import subterms
+
+    def multi(t):
+        for x in subterms(t):
+            if isinstance(x, tuple) and len(x) == 3 and x[0] == "var" and isinstance(x[1], int):
+                ds = b.defs().get(x[1], [])
+                if len(ds) >= 2 and not b.defs().get(("p", x[1])) and x[1] not in b.mut_borrowed() and x not in done:
+                    return x, ds
+        return None, None
+
+    def subst(t, old, new):
+        if t == old:
+            return new
+        if isinstance(t, tuple):
+            return tuple(subst(y, old, new) for y in t)
+        return t
+    out = []
+    done = set()
+    work = [(term, [])]
+    while work and len(out) < limit:
+        t, conds = work.pop()
+        v, ds = multi(t)
+        if v is None:
+            out.append((t, conds))
+            continue
+        vals = [(b.call_term(x) if kind == "c" else b.rvalue_term(x["rv"]), bi) for kind, bi, si, x in ds]
+        if any(v in list(subterms(val)) for val, _ in vals):
+            done.add(v)          # loop-carried (an accumulator): stays opaque
+            work.append((t, conds))
+            continue
+        for val, bi in vals:
+            work.append((subst(t, v, val), conds + list(b.dominating_conditions(bi))))
+    return out
